@@ -482,7 +482,8 @@ FRAGS = ['<a>', '</a>', '<b>', '</b>', '<b', '<a ', ' a="', '"', "'", '<!--', '-
          '>', '<', '</', 'a=b', ' b=', '{', '}', '[', ']', '(', ')', '\\', ' ', '\n', 'ab', '<ab>', '</ab>', '<a/>', '*a', '#b',
          'type=', 'type="a"', "type='", '<script>', '</script>', '<style>', '</style>', '<script type="x">', '<br>', '<img ',
          '=', '!', '-', '?', 'é', ' ', '\t', '<a b="\\', "<a b='>'>", '<a {>}>', '<a <b>>', '<!', '<!-', '<![', ']]',
-         '--', '</a >', '< a>', '<a\\>', '<a b=\\>']
+         '--', '</a >', '< a>', '<a\\>', '<a b=\\>',
+         '[*', '(#', '{*', '<#', '[* ', '(# ', '*', '#', ' *', ' #', ' "x"', " 'y'", '""', '<a [', '<a (', '[x]=', '(y)=', '{...z}']
 
 
 def short_strings(max_len, alphabet=None):
